@@ -19,6 +19,8 @@ def affine_box(box, s, b):
 def run_points(case, box=None, labels=None, queries=None, wall_s=300, state_hook=None):
     """returns dict(points=[...], last=..., crash=str|None, box_after=..., qpoints=[...])"""
     box_in = copy.deepcopy(box if box is not None else case["box"])
+    if case.get("alias_box"):
+        box_in = [box_in[0]] * len(box_in)
     c = dict(case)
     c["box"] = box_in
     seq = C.open_rewards(case["reward"]["family"], case["reward"]["seed"], max(case["T"], 1)) if not case["reward"][
